@@ -71,11 +71,11 @@ func Specs() map[string]*PropSpec {
 	}
 	ck := func(fn string, kv ...string) Inst { return Inst{Pkg: "x/coinomics/keeper", Fn: fn, Params: pm(kv...)} }
 	m["C13"] = &PropSpec{
-		ID: "C13", Pkgs: []string{"./x/coinomics/keeper"},
-		Quick:    []Inst{ck("VerifC13_Mint"), ck("VerifC13_Disabled"), ck("VerifC13_Reactivation")},
-		Thorough: []Inst{ck("VerifC13_Mint", "years", "all"), ck("VerifC13_Disabled"), ck("VerifC13_Reactivation")},
+		ID: "C13", Pkgs: []string{"./x/coinomics/keeper", "./x/coinomics"},
+		Quick:    []Inst{ck("VerifC13_Mint"), ck("VerifC13_Disabled"), ck("VerifC13_Reactivation"), {Pkg: "x/coinomics", Fn: "VerifC19_Coinomics", Params: pm()}},
+		Thorough: []Inst{ck("VerifC13_Mint", "years", "all"), ck("VerifC13_Disabled"), ck("VerifC13_Reactivation"), {Pkg: "x/coinomics", Fn: "VerifC19_Coinomics", Params: pm()}},
 		Bounds: map[string]string{
-			"quick":    "one EndBlocker step from an arbitrary state: bonded, supply, max supply in [0,2^100), reward coefficient any Dec in [0,100], previous timestamp in [0,2^45) ms, block time anywhere inside each of the calendar years {1970,1999,2000,2023,2024,2100,2104,2200,2300,2399}; two-step history disable -> enable",
+			"quick":    "one EndBlocker step from an arbitrary state: bonded, supply, max supply in [0,2^100), reward coefficient any Dec in [0,100], previous timestamp in [0,2^45) ms, block time anywhere inside each of the calendar years {1970,1999,2000,2023,2024,2100,2104,2200,2300,2399}; two-step history disable -> enable; block sequences across a restart: export / import of the module state keeps the previous block timestamp, the maximum supply and the parameters (VerifC19_Coinomics, as C19), so the step after a restart is the step above from the same state",
 			"thorough": "same with the block time anywhere inside every calendar year 1970..2399",
 		},
 		Outside:     []string{"block times after 2400 or before 1970", "distribution of the fee collector balance by x/distribution", "histories longer than two steps (single-step facts are inductive: they are proved from an arbitrary pre-state)"},
@@ -85,8 +85,8 @@ func Specs() map[string]*PropSpec {
 	dk := func(fn string, kv ...string) Inst { return Inst{Pkg: "x/ucdao/keeper", Fn: fn, Params: pm(kv...)} }
 	m["C12"] = &PropSpec{
 		ID: "C12", Pkgs: []string{"./x/ucdao/keeper"},
-		Quick:    []Inst{dk("VerifC12_Fund", "accounts", "2"), dk("VerifC12_Transfer", "accounts", "2")},
-		Thorough: []Inst{dk("VerifC12_Fund", "accounts", "3"), dk("VerifC12_Transfer", "accounts", "3")},
+		Quick:    []Inst{dk("VerifC12_Fund", "accounts", "2"), dk("VerifC12_Transfer", "accounts", "2"), dk("VerifC12_Fund", "accounts", "2", "prefix", "1"), dk("VerifC12_Transfer", "accounts", "2", "prefix", "1")},
+		Thorough: []Inst{dk("VerifC12_Fund", "accounts", "3"), dk("VerifC12_Transfer", "accounts", "3"), dk("VerifC12_Fund", "accounts", "3", "prefix", "1"), dk("VerifC12_Transfer", "accounts", "2", "prefix", "1")},
 		Bounds: map[string]string{
 			"quick":    "one message (Fund / TransferOwnership / WithRatio / WithAmount, any signer and recipient incl. the same account) from an arbitrary ledger satisfying the invariant over 2 accounts x 2 denominations; balances, wallet funds in [0,2^100), message amounts any 256-bit integer (zero and negative entries included), ratio any Dec in [-1,2]",
 			"thorough": "same over 3 accounts x 2 denominations",
@@ -178,11 +178,11 @@ func Specs() map[string]*PropSpec {
 	m["C07"] = &PropSpec{
 		ID: "C07", Pkgs: []string{"./x/evm/keeper", "./app/ante/evm", "./app/ante/cosmos"},
 		Quick: []Inst{{Pkg: "x/evm/keeper", Fn: "VerifC07_GasUsed", Params: pm(), EngineReplay: true}, {Pkg: "x/evm/keeper", Fn: "VerifC07_VerifyFee", Params: pm()},
-			{Pkg: "app/ante/evm", Fn: "VerifC07_EthFloor", Params: pm("msgs", "2")}, {Pkg: "app/ante/cosmos", Fn: "VerifC07_CosmosFloor", Params: pm()}},
+			{Pkg: "app/ante/evm", Fn: "VerifC07_EthFloor", Params: pm("msgs", "2")}, {Pkg: "app/ante/cosmos", Fn: "VerifC07_CosmosFloor", Params: pm()}, {Pkg: "app/ante/evm", Fn: "VerifC07_EachSenderPaysItsOwnFee", Params: pm("msgs", "2")}, {Pkg: "app/ante/cosmos", Fn: "VerifC07_CosmosCharged", Params: pm()}},
 		Thorough: []Inst{{Pkg: "x/evm/keeper", Fn: "VerifC07_GasUsed", Params: pm(), EngineReplay: true}, {Pkg: "x/evm/keeper", Fn: "VerifC07_VerifyFee", Params: pm()},
-			{Pkg: "app/ante/evm", Fn: "VerifC07_EthFloor", Params: pm("msgs", "3")}, {Pkg: "app/ante/cosmos", Fn: "VerifC07_CosmosFloor", Params: pm()}},
+			{Pkg: "app/ante/evm", Fn: "VerifC07_EthFloor", Params: pm("msgs", "3")}, {Pkg: "app/ante/cosmos", Fn: "VerifC07_CosmosFloor", Params: pm()}, {Pkg: "app/ante/evm", Fn: "VerifC07_EachSenderPaysItsOwnFee", Params: pm("msgs", "2")}, {Pkg: "app/ante/cosmos", Fn: "VerifC07_CosmosCharged", Params: pm()}},
 		Bounds: map[string]string{
-			"quick":    "one message call or contract creation through the real ApplyMessageWithConfig + RefundGas with the EVM interpreter stubbed to an arbitrary outcome (gas limit < 2^62, any leftover, refund counter, VM error, intrinsic gas; multiplier any Dec in [0,1]; price < 2^128); VerifyFee for legacy and dynamic-fee data; eth min-gas-price decorator over <= 2 messages; Cosmos min-gas-price decorator over 5 fee shapes",
+			"quick":    "one message call or contract creation through the real ApplyMessageWithConfig + RefundGas with the EVM interpreter stubbed to an arbitrary outcome (gas limit < 2^62, any leftover, refund counter, VM error, intrinsic gas; multiplier any Dec in [0,1]; price < 2^128); VerifyFee for legacy and dynamic-fee data; eth min-gas-price decorator over <= 2 messages; Cosmos min-gas-price decorator over 5 fee shapes; eth gas-consume decorator on <= 2 messages from up to 2 different senders (any gas, prices, base fee): every sender is charged exactly gasLimit x effective price of its own messages; Cosmos route, what is charged: MinGasPriceDecorator followed by the dynamic fee checker (with or without the dynamic-fee extension option, any base fee < 2^64, minimum gas price, declared fee < 2^120, max priority price, gas in {1, 3, 21000, 1000003}): accepted => charged >= gas x whole-unit minimum gas price and <= the declared fee",
 			"thorough": "eth min-gas-price decorator over <= 3 messages",
 		},
 		Outside:     []string{"EthGasConsumeDecorator / DeductTxCostsFromUserBalance (SDK DeductFees): the deduction amount is VerifyFee's result, which is decided", "multi-message transactions through ApplyTransaction (hooks, bloom, receipts)", "what the real interpreter returns (go-ethereum): any outcome within its contract is covered"},
@@ -240,15 +240,15 @@ func Specs() map[string]*PropSpec {
 		Stubs:       []string{"sLedger", "c02Bank", "c04Srv (staking message server)", "authz keeper overrides"},
 	}
 	m["C01"] = &PropSpec{
-		ID: "C01", Pkgs: []string{"./x/evm/statedb", "./app/ante/evm", "./x/evm/types", "./x/evm/keeper"},
+		ID: "C01", Pkgs: []string{"./x/evm/statedb", "./app/ante/evm", "./x/evm/types", "./x/evm/keeper", "./x/coinomics/keeper"},
 		Quick: []Inst{{Pkg: "x/evm/statedb", Fn: "VerifC01_CommitOrder", Params: pm("ops", "2", "kinds", "ts"), EngineReplay: true},
 			{Pkg: "app/ante/evm", Fn: "VerifC01_NodeLocalConfig", Params: pm("msgs", "2")}, {Pkg: "x/evm/types", Fn: "VerifC01_TracerConfig", Params: pm()},
-			{Pkg: "x/evm/keeper", Fn: "VerifC01_BlockHashNoProcessState", Params: pm("lookups", "1"), EngineReplay: true}},
+			{Pkg: "x/evm/keeper", Fn: "VerifC01_BlockHashNoProcessState", Params: pm("lookups", "1"), EngineReplay: true}, {Pkg: "x/coinomics/keeper", Fn: "VerifC13_Mint", Params: pm()}},
 		Thorough: []Inst{{Pkg: "x/evm/statedb", Fn: "VerifC01_CommitOrder", Params: pm("ops", "3", "kinds", "ts", "amts", "1", "vals", "2"), EngineReplay: true},
 			{Pkg: "app/ante/evm", Fn: "VerifC01_NodeLocalConfig", Params: pm("msgs", "3")}, {Pkg: "x/evm/types", Fn: "VerifC01_TracerConfig", Params: pm()},
-			{Pkg: "x/evm/keeper", Fn: "VerifC01_BlockHashNoProcessState", Params: pm("lookups", "2"), EngineReplay: true}},
+			{Pkg: "x/evm/keeper", Fn: "VerifC01_BlockHashNoProcessState", Params: pm("lookups", "2"), EngineReplay: true}, {Pkg: "x/coinomics/keeper", Fn: "VerifC13_Mint", Params: pm()}},
 		Bounds: map[string]string{
-			"quick":    "StateDB.Commit after every program of <= 2 operations (transfers, SSTOREs) over 3 accounts sharing their first 16 address bytes and 2 slots: all iteration orders of the dirty-account and dirty-storage maps explored; the sequence of keeper writes is ascending in (address, key) for each; node-local configuration: the eth gas-consume decorator in DeliverTx mode on <= 2 messages (any gas, prices, base fee, block gas limit) under two arbitrary values of the operator's max-tx-gas-wanted setting gives the same verdict, transaction gas limit and priority (relational check); building the EVM tracer from the node-local evm.tracer option succeeds for every option value and for calls and contract creations; BLOCKHASH (Keeper.GetHashFn, keeper built by the real NewKeeper): a replica that served <= 1 earlier lookup (any of 2 heights, any subset of the historical entries kept at that time) answers a lookup exactly as a freshly started replica over the same consensus state (any subset kept now, present entries answer their header hash, pruned ones the zero hash)",
+			"quick":    "StateDB.Commit after every program of <= 2 operations (transfers, SSTOREs) over 3 accounts sharing their first 16 address bytes and 2 slots: all iteration orders of the dirty-account and dirty-storage maps explored; the sequence of keeper writes is ascending in (address, key) for each; node-local configuration: the eth gas-consume decorator in DeliverTx mode on <= 2 messages (any gas, prices, base fee, block gas limit) under two arbitrary values of the operator's max-tx-gas-wanted setting gives the same verdict, transaction gas limit and priority (relational check); building the EVM tracer from the node-local evm.tracer option succeeds for every option value and for calls and contract creations; BLOCKHASH (Keeper.GetHashFn, keeper built by the real NewKeeper): a replica that served <= 1 earlier lookup (any of 2 heights, any subset of the historical entries kept at that time) answers a lookup exactly as a freshly started replica over the same consensus state (any subset kept now, present entries answer their header hash, pruned ones the zero hash); node time zone: the engine gives every process-local time value (time.Unix / UnixMilli / Local()) an arbitrary zone offset in [-12h, +14h] as an environment input, and the coinomics mint step (the state-machine code that reads calendar fields) equals the UTC formula for every offset (VerifC13_Mint, as C13)",
 			"thorough": "<= 3 operations; <= 2 earlier BLOCKHASH lookups",
 		},
 		Outside:     []string{"equality of app hashes of two replicas over block histories (BaseApp, IAVL, all modules)", "goroutine-fed counters (app/tps_counter.go): concurrency", "fixed Begin/EndBlocker ordering and sorted module-account construction in app.go (construction-time facts)"},
